@@ -351,6 +351,8 @@ def main(argv=None):
             "replays_written": reported,
         }
         path = write_evidence(check, a.tier, verif_seed, agg, wall_total, len(reported), extra)
+    if reported:
+        rc = 1  # a verified, replayable violation outranks harness errors met elsewhere in the batch
     print("runs=%d steps=%d sim_seconds=%.1f interleavings=%d nontrivial=%d known_seen=%s wall=%.1fs rc=%d" % (
         agg["runs"], agg["steps"], agg["vtime"], len(agg["sigs"]), len(agg["nontrivial"]), known_seen, wall_total, rc), flush=True)
     return rc
